@@ -252,7 +252,8 @@ pub fn finish(rep: &Report, min_states: u64) -> Finish {
             None => {
                 // report at most 5 cases per fingerprint
                 let n = fresh.iter().filter(|x| x.key == v.key).count();
-                if n < 2 && fresh.len() < 24 {
+                let dup = fresh.iter().any(|x| x.key == v.key && x.case == v.case);
+                if n < 2 && fresh.len() < 24 && !dup {
                     fresh.push(v.clone());
                 }
                 fresh_keys.insert(v.key.clone());
